@@ -5,6 +5,7 @@
 -/
 import SpecsModel.Lemmas.EWorldAccept
 import SpecsModel.Lemmas.EntSpecFacts
+import SpecsModel.Props.WorldEnt
 namespace SpecsModel.C17
 open SpecsModel Alloc
 
@@ -48,5 +49,14 @@ theorem no_index_leaked (ops : List EOp) (i : Nat) (hi : i < (EWorld.run ops).1.
     prefix's index is reused. -/
 example : (EWorld.run [.createNow false, .createNow false, .delBatch [0, 0], .createNow false]).2.map (·.2)
     = [.ent ⟨0, 1⟩, .ent ⟨1, 1⟩, .kill (.err 1), .ent ⟨0, 2⟩] := by decide +kernel
+
+
+/-- **C17 for the full world model**: no index below `max_id` is ever leaked, and `max_id` never
+    exceeds the peak number of simultaneously not-dead entities, in every reachable world. -/
+theorem world_no_index_leaked (fuel : Nat) (ops : List WOp) :
+    (∀ i, i < (WorldEnt.after fuel ops).ent.alloc.maxId →
+      (WorldEnt.after fuel ops).ent.alloc.occ i = true ∨ i ∈ (WorldEnt.after fuel ops).ent.alloc.free) ∧
+    ∃ s : EntSpec, (WorldEnt.after fuel ops).ent.alloc.maxId ≤ s.peak ∧ s.live.length ≤ s.peak :=
+  WorldEnt.no_index_leaked fuel ops
 
 end SpecsModel.C17
